@@ -145,8 +145,8 @@ fn format_variant(
     let formatted = match (untagged_variant, enum_attr.tagged()?) {
         (true, _) | (_, Tagged::Untagged) => quote!(#parsed_ty),
         (false, Tagged::Externally) => match &variant.fields {
-            Fields::Unit => quote!(format!("\"{}\"", #ts_name)),
-            Fields::Unnamed(unnamed) if unnamed.unnamed.len() == 1 => {
+            Fields::Unit if !overridden => quote!(format!("\"{}\"", #ts_name)),
+            Fields::Unnamed(unnamed) if unnamed.unnamed.len() == 1 && !overridden => {
                 let field = &unnamed.unnamed[0];
                 let field_attr = FieldAttr::from_attrs(&field.attrs)?;
 
@@ -186,7 +186,9 @@ fn format_variant(
                     )
                 }
             }
-            Fields::Unit => quote!(format!("{{ \"{}\": \"{}\" }}", #tag, #ts_name)),
+            Fields::Unit if !overridden => {
+                quote!(format!("{{ \"{}\": \"{}\" }}", #tag, #ts_name))
+            }
             _ => quote!(
                 format!("{{ \"{}\": \"{}\", \"{}\": {} }}", #tag, #ts_name, #content, #parsed_ty)
             ),
@@ -221,7 +223,9 @@ fn format_variant(
                         quote!(format!("{{ \"{}\": \"{}\" }} & {}", #tag, #ts_name, #ty))
                     }
                 }
-                Fields::Unit => quote!(format!("{{ \"{}\": \"{}\" }}", #tag, #ts_name)),
+                Fields::Unit if !overridden => {
+                    quote!(format!("{{ \"{}\": \"{}\" }}", #tag, #ts_name))
+                }
                 _ => {
                     let intersected_parsed = intersected(&parsed_ty);
                     quote!(format!("{{ \"{}\": \"{}\" }} & {}", #tag, #ts_name, #intersected_parsed))
